@@ -334,6 +334,18 @@ def rand_history(rng):
             ops.append({"op": "rename_table", "sheet": rng.randrange(6), "table": rng.randrange(6), "name": rng.choice([n for n in NAMES if n is not None] + ["Renamed", "R2"])})
         else:
             ops.append({"op": "rename_sheet", "sheet": rng.randrange(6), "name": rng.choice([n for n in NAMES if n is not None] + ["Renamed", "R2"])})
+    if rng.random() < .35:
+        # an automatic name must be unique among the names the siblings have *now*: a sibling (or another sheet) is renamed
+        # onto a name of the automatic series between two unnamed additions
+        s_ = rng.randrange(3)
+        for _ in range(rng.randint(1, 3)):
+            ops.append({"op": rng.choice(["add_table", "add_table", "add_sheet"]), "sheet": s_, "name": None})
+            k_ = rng.randint(1, 6)
+            if ops[-1]["op"] == "add_table":
+                ops.append({"op": "rename_table", "sheet": s_, "table": rng.randrange(4), "name": rng.choice([f"Table {k_}", f"table {k_}", f"TABLE {k_}"])})
+            else:
+                ops.append({"op": "rename_sheet", "sheet": rng.randrange(4), "name": rng.choice([f"Sheet {k_}", f"sheet {k_}", f"SHEET {k_}"])})
+            ops.append({"op": ops[-2]["op"], "sheet": s_, "name": None})
     sp = sorted({rng.randrange(len(ops)) for _ in range(rng.choice([0, 0, 1]))})
     return init, ops, sp
 
